@@ -4,6 +4,7 @@ package resmgr
 
 import (
 	"fmt"
+	"os"
 	"sort"
 	"strings"
 
@@ -82,7 +83,10 @@ func checkRuntimeView(e *executor, r *stepResult) *vfkit.Violation {
 					sig = "cache-emptied-but-runtime-keeps:" + f.name
 				}
 				if r.Err != nil || r.CfgError != nil || e.failedPending {
-					sig += ":after-failed-request"
+					sig += ":after-failed-request:" + e.cfg.policyName() + ":" + e.failedKind(c.ID)
+					if os.Getenv("VERIF_DEBUG_CLASSES") != "" {
+						fmt.Fprintf(os.Stderr, "CLASS %s %s %s\n", sig, e.cfg.policyName(), e.failedKind(c.ID))
+					}
 				}
 				return viol(P, "runtime view equals cache view", sig,
 					"after %s: container %s %s: runtime has %q, cache has %q", r.Desc, c.ID, f.name, f.rt, f.cach)
